@@ -209,6 +209,32 @@ def eval_streamed(case):
     return Eval(failures, cl, nontrivial=True, ident=(text, tuple(schedule)), evals=evals, sample={"text": text[-200:], "schedule": schedule, "pad": pad})
 
 
+def eval_encoded(case):
+    """The same checks with the text delivered as bytes (UTF-8 with or without BOM, UTF-16-LE/BE with BOM; whole or through a
+    short-read byte stream).  The positions refer to the characters the reader decodes: a byte order mark is the character
+    U+FEFF at index 0 (exactly as when the caller passes a str that starts with U+FEFF)."""
+    import codecs
+    from checks.c07 import ChunkedBytes
+    text, enc, schedule = case
+    if text[:1] == "\ufeff":
+        text = text[1:]
+    if enc == "utf-8":
+        data, seen = text.encode("utf-8"), text
+    elif enc == "utf-8-bom":
+        data, seen = codecs.BOM_UTF8 + text.encode("utf-8"), "\ufeff" + text
+    else:
+        data, seen = (codecs.BOM_UTF16_LE if enc == "utf-16-le" else codecs.BOM_UTF16_BE) + text.encode(enc), "\ufeff" + text
+    failures, evals, info = run_text(seen, make_input=(lambda: ChunkedBytes(data, schedule)) if schedule else (lambda: data))
+    return Eval(failures, ["encoded:%s" % enc, "encoded:%s" % ("byte-stream" if schedule else "bytes")], nontrivial=True,
+                ident=(text, enc, tuple(schedule or ())), evals=evals, sample={"text": text[-200:], "encoding": enc, "schedule": schedule})
+
+
+def encoded_cases():
+    body = st.one_of(gi.rendered_texts(2, 8), gi.mutated_texts().filter(lambda t: "\ufeff" not in t[1:] and all(ord(c) < 0xd800 or 0xe000 <= ord(c) for c in t)))
+    sched = st.one_of(st.none(), st.none(), st.lists(st.sampled_from([1, 2, 3, 5, 64, 4096]), min_size=1, max_size=6))
+    return st.tuples(body, st.sampled_from(["utf-8", "utf-8-bom", "utf-16-le", "utf-16-be", "utf-16-le", "utf-16-be"]), sched)
+
+
 def streamed_cases():
     long_names = st.sampled_from(["- &anchor_with_a_long_name_%d [*anchor_with_a_long_name_%d, !!str &other_%d x, *other_%d]\n" % (i, i, i, i) for i in range(3)] +
                                  ["k: &a1 'single quoted scalar of some length' \n*a1 : \"double quoted\"\n", "? &k plain key of some length\n: !local-tag-name value text\n"])
@@ -374,6 +400,7 @@ def arms(tier):
         Arm("mutated", make_eval("mutated"), lambda: gi.mutated_texts(), quick=8000, thorough=400000),
         Arm("productions", make_eval("production"), lambda: gi.productions(), quick=6000, thorough=300000),
         Arm("streamed", eval_streamed, streamed_cases, quick=2500, thorough=100000),
+        Arm("encoded", eval_encoded, encoded_cases, quick=3000, thorough=120000),
         Arm("short-strings", make_eval("short"), enum=enum_short, exhaustive=True),
         Arm("stub-tokens", eval_stub, enum=enum_stub, exhaustive=True),
         Arm("stub-random", eval_stub, lambda: st.lists(st.sampled_from(STUB_KINDS), min_size=5, max_size=14).map(tuple), quick=20000, thorough=1000000),
